@@ -91,7 +91,7 @@ def random_unitary(dim: list[int] | int, is_real: bool = False, seed: int | None
     """
     gen = np.random.default_rng(seed=seed)
 
-    if isinstance(dim, int):
+    if isinstance(dim, (int, np.integer)):
         dim = [dim, dim]
 
     if dim[0] != dim[1]:
